@@ -22,6 +22,7 @@ structure DState where
 /-- new state, acceptable outcomes (`any` accepts everything), optional note -/
 def dispatch (st : DState) (l : Line) : Option (DState × List String × Option String) :=
   match l.verbs.head? with
+  | some "c04" => (DriverC01.handle st.c01 l).map (fun (s, a, n) => ({ st with c01 := s }, a, n))
   | some "c06" => (DriverC01.handle st.c01 l).map (fun (s, a, n) => ({ st with c01 := s }, a, n))
   | some "c01" => (DriverC01.handle st.c01 l).map (fun (s, a, n) => ({ st with c01 := s }, a, n))
   | some "c08" => (DriverC08.handle st.c08 l).map (fun (s, a, n) => ({ st with c08 := s }, a, n))
